@@ -12,6 +12,11 @@ def op_family(name):
     return name.split("/")[0]
 
 
+# analysis depth: set by the runner according to the tier (quick: loops unrolled twice, thunks inlined one level;
+# thorough: three times / two levels)
+DEPTH = {"max_visits": 2, "inline": 1}
+
+
 class OpView:
     def __init__(self, model, op):
         self.m = model
@@ -51,10 +56,12 @@ class OpView:
         """Label without the member index (for keys shared by all members of a macro-generated family)."""
         return self.op.roles.get(bid, "?")
 
-    def arm(self, bid, variant, inline=1):
-        k = (bid, variant, inline)
+    def arm(self, bid, variant, inline=None):
+        if inline is None:
+            inline = DEPTH["inline"]
+        k = (bid, variant, inline, DEPTH["max_visits"])
         if k not in self._arms:
-            self._arms[k] = enumerate_paths(self.P, self.P.bodies[bid], variant, inline=inline)
+            self._arms[k] = enumerate_paths(self.P, self.P.bodies[bid], variant, max_visits=DEPTH["max_visits"], inline=inline, limit=200000)
         return self._arms[k]
 
     def key(self, bid, variant, lemma, what=""):
@@ -129,6 +136,32 @@ def census_operators(ctx, model):
             ctx.ob("CEN-S", "%s:%s:CEN-S:%s" % (v.name, v.label(b), "send-classified"), good,
                    "send of %s to %s at %s" % (e.variant, c[0], e.loc), e.loc)
             ok = ok and good
+    # CEN-call: every call that is not classified as a protocol effect goes to a known, pure library function;
+    # a local closure may only be handed to a known synchronous higher-order function
+    CALL_OK = ("std::", "core::", "alloc::", "arc_swap::", "never::", "combine::Unwrap::unwrap", "combine::Combine::combine",
+               "combine::IntoArcSource::")
+    HOF_OK = ("std::iter::Iterator::position", "std::iter::Iterator::map", "std::iter::Iterator::collect", "std::vec::Vec::<T, A>::resize_with",
+              "std::option::Option::<T>::map", "std::iter::IntoIterator::into_iter")
+    for v in views(model):
+        bad = []
+        n = 0
+        for b in v.op.bodies:
+            for e in v.all_effects(b):
+                if e.tracing:
+                    continue
+                if e.kind == "indirect":
+                    bad.append("call through a value that does not resolve to a local closure or a callbag at %s" % e.loc)
+                elif e.kind in ("other", "usertrait", "localcall", "hocall", "alias"):
+                    n += 1
+                    cal = e.get("callee") or ""
+                    if not cal.startswith(CALL_OK):
+                        bad.append("call of %s at %s" % (cal, e.loc))
+                    if e.kind == "hocall" and e.get("closures") and not cal.startswith(HOF_OK):
+                        bad.append("local closure handed to %s at %s" % (cal, e.loc))
+                    if cal.startswith(("std::thread::", "std::process::", "std::sync::mpsc::")):
+                        bad.append("call of %s at %s" % (cal, e.loc))
+        ctx.ob("CEN-call", "%s:CEN-call" % v.name, not bad, "%d library calls, all to known pure functions" % n if not bad else "; ".join(bad[:3]), v.loc(v.op.id))
+        ok = ok and not bad
     # helpers (no handlers) must not send
     for op in model.ops.values():
         if op.handlers:
